@@ -182,7 +182,7 @@ func (d Date) MarshalBinary() ([]byte, error) {
 }
 
 // UnmarshalBinary sets date from passed data.
-// It can return wrapped ErrUnsupportedVersion or ErrInvalidLength.
+// It can return wrapped ErrUnsupportedVersion, ErrInvalidLength or ErrInvalidDate.
 func (d *Date) UnmarshalBinary(data []byte) error {
 	l := len(data)
 	if l == 0 {
@@ -194,9 +194,14 @@ func (d *Date) UnmarshalBinary(data []byte) error {
 	if l != 7 { // version(1)+year(4)+month(1)+day(1)
 		return fmt.Errorf("date.Date.UnmarshalBinary: %w: expected 7 instead of %d", ErrInvalidLength, l)
 	}
-	d.year = (int32(data[1])<<24 | int32(data[2])<<16 | int32(data[3])<<8 | int32(data[4])) - 1
-	d.month = data[5] - 1
-	d.day = data[6] - 1
+	year := int(int32(data[1])<<24 | int32(data[2])<<16 | int32(data[3])<<8 | int32(data[4]))
+	month, day := Month(data[5]), int(data[6])
+	date := New(year, month, day)
+	if y, m, dd := date.Date(); y != year || m != month || dd != day {
+		// month outside 1-12 or a day the month does not have: not a calendar date
+		return fmt.Errorf("date.Date.UnmarshalBinary: %w: %d-%d-%d", ErrInvalidDate, year, data[5], data[6])
+	}
+	*d = date
 	return nil
 }
 
